@@ -711,7 +711,12 @@ fn run_history_inner(ctx: &Ctx, rep: &mut Report, n: u64, rng: &mut Rng, single:
                         }
                     }
                     let c = Col { name: cname, ty, specs };
-                    let sql = Table::alter().table(target(rng, &tname)).add_column(c.column_def()).build_any(lite());
+                    let sql = if rng.chance(1, 3) {
+                        // SQLite has no ADD COLUMN IF NOT EXISTS: the flag is not rendered
+                        Table::alter().table(target(rng, &tname)).add_column_if_not_exists(c.column_def()).build_any(lite())
+                    } else {
+                        Table::alter().table(target(rng, &tname)).add_column(c.column_def()).build_any(lite())
+                    };
                     model.tables[ti].cols.push(c);
                     ("ALTER TABLE ADD COLUMN", sql)
                 }
@@ -814,8 +819,9 @@ fn run_history_inner(ctx: &Ctx, rep: &mut Report, n: u64, rng: &mut Rng, single:
                     let filter = if rng.chance(1, 3) { plain.iter().find(|c| c.ty.is_int()).map(|c| (c.name.clone(), rng.range(0, 9))) } else { None };
                     let filter_more: Vec<i64> = if filter.is_some() { (0..rng.pick_weighted(&[3, 2, 1])).map(|_| rng.range(10, 19)).collect() } else { vec![] };
                     // index names are identifiers like any other: now and then one with a quote character or a blank
-                    let odd = if rng.chance(1, 6) { *rng.pick(&["\"", " x", "'", "\"\"", "é"]) } else { "" };
-                    let ix = Ix { name: Some(format!("ix{}{odd}", model.indexes.len() + rng.below(1000) * 10)), unique: rng.chance(1, 3), primary: false, cols: cols.clone(), index_type: None, include: vec![], nulls_not_distinct: false, if_not_exists: rng.coin(), filter: filter.clone(), filter_more: filter_more.clone() };
+                    let odd = if rng.chance(1, 5) { *rng.pick(&["\"", " x", "'", "\"\"", "é", ".v2", "."]) } else { "" };
+                    let ix = Ix { name: Some(format!("ix{}{odd}", model.indexes.len() + rng.below(1000) * 10)), unique: rng.chance(1, 3), primary: false, cols: cols.clone(), index_type: None, // INCLUDE / NULLS NOT DISTINCT are Postgres notions: SQLite's renderer leaves them out
+                        include: if rng.chance(1, 6) { vec![names[0].clone()] } else { vec![] }, nulls_not_distinct: rng.chance(1, 8), if_not_exists: rng.coin(), filter: filter.clone(), filter_more: filter_more.clone() };
                     let sql = ix.statement(Some(&tname)).build_any(lite());
                     model.indexes.push(MIndex { name: ix.name.clone().unwrap(), table: tname.clone(), unique: ix.unique, cols: cols.iter().map(|c| (c.0.clone(), c.1 == Some(true))).collect(), filter, filter_more });
                     ("CREATE INDEX", sql)
